@@ -150,7 +150,7 @@ pub fn gen_plan(def: &CheckDef, ctx: &Ctx, seed: u64, thorough: bool) -> Plan {
             if seed % 2 == 1 {
                 Plan::Board(boardsim::gen_plan("C11", seed, thorough, &ctx.pool))
             } else {
-                Plan::Engine(enginesim::gen_plan_twin(seed, thorough, &ctx.pool, &ctx.mates))
+                Plan::Engine(enginesim::gen_plan_twin(seed, thorough, &ctx.pool, &ctx.mates, &ctx.imbalanced))
             }
         }
         "draw" => {
@@ -163,7 +163,7 @@ pub fn gen_plan(def: &CheckDef, ctx: &Ctx, seed: u64, thorough: bool) -> Plan {
         "api" => panic!("api plans are generated by the sim_api binary"),
         "stream" => Plan::Stream(streamsim::gen_plan(seed, thorough, &ctx.pool)),
         "table" => Plan::Table(tablesim::gen_table_plan(seed, thorough)),
-        "engine_exact" => Plan::Engine(enginesim::gen_plan_exact_disturbed(seed, thorough, &ctx.pool, &ctx.mates)),
+        "engine_exact" => Plan::Engine(enginesim::gen_plan_exact_disturbed(seed, thorough, &ctx.pool, &ctx.mates, &ctx.imbalanced)),
         // 1 of 8 runs is an enumeration plan (heavy: hundreds of sessions), the others are generic
         // fault-injecting sessions judged by the same position read-back oracle
         "engine_interrupt" if seed % 8 != 0 => Plan::Engine(enginesim::gen_plan("C09", seed, thorough, &ctx.pool)),
